@@ -1,3 +1,191 @@
 package main
 
-func runThorough(a *Analysis, reg *Registry, ri *RunInfo, prop, repo, verif string) {}
+// Thorough tier: (1) the same obligations under GOARCH=386; (2) the
+// self-mutation catalogue (catalog/<prop>.json and seeded/<prop>-k/patch.diff):
+// every mutant is applied to a scratch copy of the repository (never under
+// /repo or /verif, removed afterwards), analysed in its own process, and must
+// be flagged; every behaviour-preserving rewrite must stay silent.
+
+import (
+	"encoding/json"
+	"fmt"
+	"os"
+	"os/exec"
+	"path/filepath"
+	"sort"
+	"strings"
+	"sync"
+)
+
+type catEntry struct {
+	ID   string `json:"id"`
+	Kind string `json:"kind"` // mutant | refactor
+	File string `json:"file"`
+	Old  string `json:"old"`
+	New  string `json:"new"`
+	diff string // seeded patch path
+}
+
+type catResult struct {
+	ID, Kind, Outcome, Detail string
+}
+
+func copyTree(src, dst string) error {
+	return filepath.Walk(src, func(p string, info os.FileInfo, err error) error {
+		if err != nil {
+			return err
+		}
+		rel, _ := filepath.Rel(src, p)
+		if rel == ".git" || strings.HasPrefix(rel, ".git"+string(os.PathSeparator)) {
+			if info.IsDir() {
+				return filepath.SkipDir
+			}
+			return nil
+		}
+		if info.IsDir() {
+			return os.MkdirAll(filepath.Join(dst, rel), 0o755)
+		}
+		b, err := os.ReadFile(p)
+		if err != nil {
+			return err
+		}
+		return os.WriteFile(filepath.Join(dst, rel), b, 0o644)
+	})
+}
+
+func runThorough(a *Analysis, reg *Registry, ri *RunInfo, prop, repo, verif string) {
+	exe, err := os.Executable()
+	if err != nil {
+		reg.Notes = append(reg.Notes, "thorough: cannot locate own executable: "+err.Error())
+		return
+	}
+	// (1) GOARCH=386
+	func() {
+		tmpv, _ := os.MkdirTemp("", "gmsa-386-")
+		defer os.RemoveAll(tmpv)
+		if b, err := os.ReadFile(filepath.Join(verif, "known_findings.json")); err == nil {
+			os.WriteFile(filepath.Join(tmpv, "known_findings.json"), b, 0o644)
+		}
+		cmd := exec.Command(exe, "check", prop, "--tier", "quick", "--repo", repo, "--verif", tmpv, "--no-controls")
+		cmd.Env = append(os.Environ(), "GMSA_GOARCH=386")
+		out, err := cmd.CombinedOutput()
+		if err != nil {
+			lines := strings.Split(strings.TrimSpace(string(out)), "\n")
+			reg.Undecided("thorough GOARCH=386", prop, "", "the obligations do not all hold when the tree is analysed for GOARCH=386: "+clip(lines[0], 300))
+		} else {
+			reg.OK("thorough GOARCH=386", prop, "", "all obligations also discharged for GOARCH=386")
+		}
+	}()
+	// (2) catalogue
+	var entries []catEntry
+	if b, err := os.ReadFile(filepath.Join(verif, "catalog", prop+".json")); err == nil {
+		json.Unmarshal(b, &entries)
+	}
+	seeds, _ := filepath.Glob(filepath.Join(verif, "seeded", prop+"-*", "patch.diff"))
+	sort.Strings(seeds)
+	for _, s := range seeds {
+		// a seeded change is part of this property's self-test when its recorded detection names this property
+		mb, _ := os.ReadFile(filepath.Join(filepath.Dir(s), "meta.json"))
+		if !strings.Contains(string(mb), "\""+prop+":") {
+			continue
+		}
+		entries = append(entries, catEntry{ID: "seed:" + filepath.Base(filepath.Dir(s)), Kind: "mutant", diff: s})
+	}
+	if len(entries) == 0 {
+		reg.Notes = append(reg.Notes, "thorough: no catalogue entries for "+prop)
+		return
+	}
+	results := make([]catResult, len(entries))
+	sem := make(chan struct{}, 8)
+	var wg sync.WaitGroup
+	for i, e := range entries {
+		wg.Add(1)
+		go func(i int, e catEntry) {
+			defer wg.Done()
+			sem <- struct{}{}
+			defer func() { <-sem }()
+			results[i] = runCatEntry(exe, prop, repo, verif, e)
+		}(i, e)
+	}
+	wg.Wait()
+	counts := map[string]int{}
+	var missed, loud, bad []string
+	for _, r := range results {
+		counts[r.Kind+":"+r.Outcome]++
+		switch {
+		case r.Kind == "mutant" && r.Outcome == "silent":
+			missed = append(missed, r.ID)
+		case r.Kind == "refactor" && r.Outcome == "flagged":
+			loud = append(loud, r.ID+" ("+r.Detail+")")
+		case r.Outcome == "not-applicable" || r.Outcome == "does-not-compile":
+			bad = append(bad, r.ID+": "+r.Outcome)
+		}
+	}
+	ri.Extra["self_test"] = map[string]interface{}{
+		"entries": len(entries), "outcomes": counts, "mutants_not_flagged": missed, "rewrites_flagged": loud, "unusable_entries": bad,
+		"note": "mutants and seeded changes are applied to scratch copies under $TMPDIR, one analyser process each; a mutant must make the check exit 1, a behaviour-preserving rewrite must leave it at exit 0",
+	}
+	for k, v := range counts {
+		reg.Count("selftest_"+k, v)
+	}
+	if len(missed) > 0 {
+		fmt.Printf("SELFTEST-WARNING property=%s mutants not flagged: %s\n", prop, strings.Join(missed, ", "))
+	}
+	if len(loud) > 0 {
+		fmt.Printf("SELFTEST-WARNING property=%s behaviour-preserving rewrites flagged: %s\n", prop, strings.Join(loud, ", "))
+	}
+}
+
+func runCatEntry(exe, prop, repo, verif string, e catEntry) catResult {
+	res := catResult{ID: e.ID, Kind: e.Kind}
+	dir, err := os.MkdirTemp("", "gmsa-mut-")
+	if err != nil {
+		res.Outcome = "not-applicable"
+		return res
+	}
+	defer os.RemoveAll(dir)
+	scratch := filepath.Join(dir, "repo")
+	tmpv := filepath.Join(dir, "verif")
+	os.MkdirAll(tmpv, 0o755)
+	if err := copyTree(repo, scratch); err != nil {
+		res.Outcome, res.Detail = "not-applicable", err.Error()
+		return res
+	}
+	if b, err := os.ReadFile(filepath.Join(verif, "known_findings.json")); err == nil {
+		os.WriteFile(filepath.Join(tmpv, "known_findings.json"), b, 0o644)
+	}
+	if e.diff != "" {
+		exec.Command("git", "-C", scratch, "init", "-q").Run()
+		if out, err := exec.Command("git", "-C", scratch, "apply", "--whitespace=nowarn", e.diff).CombinedOutput(); err != nil {
+			res.Outcome, res.Detail = "not-applicable", "patch does not apply: "+clip(string(out), 120)
+			return res
+		}
+		os.RemoveAll(filepath.Join(scratch, ".git"))
+	} else {
+		p := filepath.Join(scratch, e.File)
+		b, err := os.ReadFile(p)
+		if err != nil || !strings.Contains(string(b), e.Old) {
+			res.Outcome, res.Detail = "not-applicable", "pattern not found in "+e.File
+			return res
+		}
+		os.WriteFile(p, []byte(strings.Replace(string(b), e.Old, e.New, 1)), 0o644)
+	}
+	cmd := exec.Command(exe, "check", prop, "--tier", "quick", "--repo", scratch, "--verif", tmpv, "--no-controls")
+	out, err := cmd.CombinedOutput()
+	so := string(out)
+	switch {
+	case err == nil:
+		res.Outcome = "silent"
+	case strings.Contains(so, "rule=load"):
+		res.Outcome = "does-not-compile"
+	default:
+		res.Outcome = "flagged"
+		for _, l := range strings.Split(so, "\n") {
+			if strings.Contains(l, "FAILED") || strings.Contains(l, "UNDECIDED") {
+				res.Detail = clip(strings.TrimSpace(l), 160)
+				break
+			}
+		}
+	}
+	return res
+}
